@@ -11,3 +11,13 @@ func verifTick() {
 		VerifTick()
 	}
 }
+
+// VerifNext, when set, is called on every TLexer.Next (replayed tokens
+// included), so that a harness can bound the work a parse does.
+var VerifNext func()
+
+func verifNext() {
+	if VerifNext != nil {
+		VerifNext()
+	}
+}
